@@ -19,3 +19,5 @@ pub use error::*;
 pub use path::*;
 pub use read::*;
 pub use write::*;
+#[cfg(aranya_core_verif)]
+pub use shared::{VerifSide, VerifSnapshot};
